@@ -25,4 +25,17 @@ def runFetch (c : Nat) : List Nat → List (Nat × Nat) × Nat
   | [] => ([], c)
   | t :: rest => let (r, c') := runFetch ((c + 1) % W) rest; ((t, c) :: r, c')
 
+/-- several balancers in one process, each with its OWN counter: `sizes b` members, `ctr b` the counter of balancer `b`;
+    `sched` names the balancer each request goes to.  Result: (balancer, member picked) in request order. -/
+def multiRr (sizes : Nat → Nat) (ctr : Nat → Nat) : List Nat → List (Nat × Nat)
+  | [] => []
+  | b :: rest =>
+    (b, (rrStep (ctr b) (sizes b)).1) ::
+      multiRr sizes (fun x => if x = b then (rrStep (ctr b) (sizes b)).2 else ctr x) rest
+
+/-- the variant of seeded change C17c: one cursor shared by all balancers -/
+def sharedRr (sizes : Nat → Nat) (cur : Nat) : List Nat → List (Nat × Nat)
+  | [] => []
+  | b :: rest => (b, (rrStep cur (sizes b)).1) :: sharedRr sizes (rrStep cur (sizes b)).2 rest
+
 end Redproxy.Lb
